@@ -126,3 +126,11 @@ def voice_emb(vc):
         vc.prove("colour_code_read_back", vc.eq(b.colour_code, cc))
         vc.prove("embedded_bits_kept", vc.eq(b.embedded_signalling_bits, mid))
         vc.prove("emb_parity_ok", b.emb.emb_parity_ok)
+
+
+# (on the current tree: 2 paths; a budget keeps a change that sends voice bursts down the data path from running away - what the
+# explored paths refute stands, the rest of the job is reported undecided)
+voice_emb.max_paths = 400
+voice_emb.budget_s = 120
+voice_sync.max_paths = 400
+voice_sync.budget_s = 120
